@@ -219,9 +219,10 @@ impl FluffConfig {
     }
 
     /// Process an inline config command and update self.
-    pub fn process_inline_config(&self, _config_line: &str) {
-        panic!("Not implemented")
-    }
+    ///
+    /// In-file configuration is not supported yet: the directive is ignored (as it already
+    /// is when linting paths, which never scan for it) instead of aborting the whole run.
+    pub fn process_inline_config(&self, _config_line: &str) {}
 
     /// Check if the config specifies a dialect, raising an error if not.
     pub fn verify_dialect_specified(&self) -> Option<SQLFluffUserError> {
